@@ -7,6 +7,7 @@ package transport
 // recorded; the per-property oracles read the record.
 
 import (
+	"go.uber.org/zap"
 	"context"
 	"errors"
 	"fmt"
@@ -106,6 +107,7 @@ type tsys struct {
 	xmits    []xmit
 	nonce    uint32
 	stop     bool
+	direct   DnsConn // the directly driven connection of the tdc-* and lazy-* kinds (nil for transports)
 	answeredTotal int
 	hold     bool // the server actors do not look at their connections (answers are held back)
 	closeLeft int
@@ -473,7 +475,7 @@ func (s *tsys) run() {
 		o.Seq = 1
 		s.opt.Seq = 1
 	}
-	s.tcp = o.Kind == "tdc-tcp" || o.Kind == "pipeline-tcp" || o.Kind == "reuse"
+	s.tcp = o.Kind == "tdc-tcp" || o.Kind == "pipeline-tcp" || o.Kind == "reuse" || o.Kind == "lazy-tcp"
 	s.closeLeft = o.Srv.CloseBudget
 	n := o.Callers * o.Seq
 	for i := 0; i < n; i++ {
@@ -488,10 +490,14 @@ func (s *tsys) run() {
 		cn := s.newConn()
 		s.dc = NewDnsConn(TraditionalDnsConnOpts{WithLengthHeader: s.tcp, MaxConcurrentQuery: o.MaxCq, IdleTimeout: o.IdleTimeout}, cn.a)
 		cn.dc = s.dc
+		s.direct = s.dc
 		setUintField(s.dc, "nextQid", uint64(o.StartQid))
 		for k := 0; k < o.SeedQueue; k++ {
 			s.dc.queue[uint32(o.StartQid+uint16(k))] = make(chan *[]byte, 1)
 		}
+	case "lazy-tcp":
+		// the lazily dialed connection of the pipeline transport, driven directly
+		s.direct = newLazyDnsConn(s.dialDns, 0, max(o.LazyQueue, 1), zap.NewNop())
 	case "pipeline-tcp", "pipeline-udp":
 		s.tr = NewPipelineTransport(PipelineOpts{DialContext: s.dialDns, MaxConcurrentQueryWhileDialing: o.LazyQueue})
 	case "reuse":
@@ -528,7 +534,7 @@ func (s *tsys) run() {
 			if s.tr != nil {
 				s.tr.Close()
 			} else {
-				s.dc.Close()
+				s.direct.Close()
 			}
 			s.closeReturned = true
 		})
@@ -541,14 +547,14 @@ func (s *tsys) run() {
 	if s.tr != nil {
 		s.tr.Close()
 	} else {
-		s.dc.Close()
+		s.direct.Close()
 	}
 	if s.AfterCloseProbe {
 		d0 := s.dials
 		s.afterCloseStart = vs.Elapsed()
 		if s.tr != nil {
 			_, s.afterCloseErr = s.tr.ExchangeContext(bg, fk.Query(0x7777, "afterclose.example.", 1))
-		} else if re, closed := s.dc.ReserveNewQuery(); re == nil && closed {
+		} else if re, closed := s.direct.ReserveNewQuery(); re == nil && closed {
 			s.afterCloseErr = ErrTDCClosed
 		} else if re != nil {
 			_, s.afterCloseErr = re.ExchangeReserved(bg, fk.Query(0x7777, "afterclose.example.", 1))
@@ -589,7 +595,7 @@ func (s *tsys) doCall(ci int, c *call) {
 	if s.tr != nil {
 		r, err = s.tr.ExchangeContext(ctx, c.q)
 	} else {
-		if s.opt.RewindQid {
+		if s.opt.RewindQid && s.dc != nil {
 			s.dc.queueMu.Lock()
 			setUintField(s.dc, "nextQid", uint64(s.opt.StartQid))
 			s.dc.queueMu.Unlock()
@@ -597,7 +603,8 @@ func (s *tsys) doCall(ci int, c *call) {
 		s.reserving++
 		c.activeMax = s.active
 		c.reservingNow = true
-		re, closed := s.dc.ReserveNewQuery()
+		s.bumpActive(0)
+		re, closed := s.direct.ReserveNewQuery()
 		c.reservingNow = false
 		s.reserving--
 		if re == nil {
@@ -630,8 +637,10 @@ func (s *tsys) doCall(ci int, c *call) {
 func (s *tsys) bumpActive(d int) {
 	s.active += d
 	for _, c := range s.calls {
-		if c.reservingNow && s.active > c.activeMax {
-			c.activeMax = s.active
+		// other calls that are inside ReserveNewQuery right now may already have been
+		// counted by the connection (its lock is released before the call returns)
+		if v := s.active + s.reserving - 1; c.reservingNow && v > c.activeMax {
+			c.activeMax = v
 		}
 	}
 }
